@@ -130,4 +130,40 @@ theorem itemOf_wf (mtu : Nat) (hm : 3 ≤ mtu) (n : Bytes) (hn : unitOk n) :
     have := chunks_length_ge_two (mtu - 2) (by omega) body (by omega)
     simp [Item.wf, Rtp.Pred.C10.headsApply, Item.nals, hF0, this, chunks_flatten (mtu - 2) (by omega)]
 
+/-! ### the fragment train of ANY unit (no hypothesis on type, F bit or content) -/
+
+theorem fu_bytes_any : ∀ h : UInt8,
+    fuaNALUType ||| (h &&& naluRefIdcBitmask) = mkHdr 0 (hNri h) 28 ∧
+    (h &&& naluTypeBitmask) ||| 0x80 = fuHdr true false (hType h) ∧
+    (h &&& naluTypeBitmask) ||| 0x40 = fuHdr false true (hType h) ∧
+    (h &&& naluTypeBitmask) = fuHdr false false (hType h) := by
+  apply Rtp.Bits.forall_u8; decide +kernel
+
+/-- whatever the unit and the MTU: nothing, the unit itself, or at least two FU-A fragments of
+    `mtu - 2` payload bytes (the last possibly shorter) with the unit's NRI in the indicator, its
+    type in the header, S on the first only and E on the last only (that is `encFu`) -/
+theorem singleOrFua_cases (mtu : Nat) (h : UInt8) (body : Bytes) :
+    singleOrFua mtu (h :: body) = [] ∧ mtu ≤ 2 ∧ mtu < (h :: body).length
+    ∨ singleOrFua mtu (h :: body) = [h :: body] ∧ (h :: body).length ≤ mtu
+    ∨ singleOrFua mtu (h :: body) = encFu (mkHdr 0 (hNri h) 28) (hType h) true (chunks (mtu - 2) body) ∧
+        2 ≤ (chunks (mtu - 2) body).length ∧ 3 ≤ mtu ∧ mtu < (h :: body).length := by
+  simp only [singleOrFua]
+  by_cases hfit : (h :: body).length ≤ mtu
+  · right; left
+    exact ⟨by rw [if_pos hfit], hfit⟩
+  · rw [if_neg hfit]
+    simp only [List.length_cons] at hfit ⊢
+    by_cases hsmall : mtu ≤ 2
+    · left
+      have : min ((mtu : Int) - 2) (body.length : Int) ≤ 0 := by omega
+      exact ⟨by rw [if_pos this], hsmall, by omega⟩
+    · right; right
+      have hmin : ¬ min ((mtu : Int) - 2) (body.length : Int) ≤ 0 := by omega
+      rw [if_neg hmin]
+      have hk : ((mtu : Int) - 2).toNat = mtu - 2 := by omega
+      obtain ⟨e1, e2, e3, e4⟩ := fu_bytes_any h
+      rw [hk, e1]
+      exact ⟨fuaLoop_eq (mtu - 2) (by omega) _ _ (hType h) e2 e3 e4 true body (by intro _; omega),
+        chunks_length_ge_two (mtu - 2) (by omega) body (by omega), by omega, by omega⟩
+
 end Rtp.Proofs.H264
